@@ -53,7 +53,7 @@ func sizeFamilies() []family {
 					}
 					return "]}"
 				}) + ") }"
-			}, quick: []int{1, 2, 10, 100, 400}, thorough: []int{1, 2, 10, 100, 400, 900}, valid: true},
+			}, quick: []int{1, 2, 10, 100, 400}, thorough: []int{1, 2, 10, 100, 200, 400}, valid: true},
 	}
 }
 
